@@ -8,7 +8,7 @@ import common_rq
 TRANSFORMS = "prqlc/prqlc/src/semantic/resolver/transforms.rs"
 LR = "prqlc/prqlc-parser/src/lexer/lr.rs"
 
-LABELS = ["JL1", "JL2", "JL3", "JL4"]
+LABELS = ["JL1", "JL2", "JL3", "JL4", "JL5"]
 FUNCTIONS = ["map_json_primitive"]
 RLIMIT = 60
 
@@ -56,5 +56,51 @@ def build(X):
             primitive is String ==> r == Literal::String(primitive->String_0), // @JL2
             (primitive is Number && serde_json::i64_of(primitive->Number_0) is Some) ==> r == Literal::Integer(serde_json::i64_of(primitive->Number_0)->0), // @JL3
             primitive is Null ==> r is Null, // @JL4
+            // a number that does not fit an i64 (a float, or an integer up to u64::MAX) is the float serde_json reads it as - not NULL
+            (primitive is Number && serde_json::i64_of(primitive->Number_0) is None && serde_json::f64_of(primitive->Number_0) is Some)
+                ==> r == Literal::Float(serde_json::f64_of(primitive->Number_0)->0), // @JL5
     """)
     return PRELUDE + lit.text + "\n" + mj.text + "\n} // verus!\nfn main() {}\n"
+
+
+# ----------------------------------------------------------------------------- replay on the real compiler + SQLite
+CASES = [
+    ('from_text format:json """[{"a": 18446744073709551615, "b": 1}]"""\n', [(1.8446744073709552e19, 1)]),
+    ('from_text format:json """[{"a": 9223372036854775807, "b": true}, {"a": -9223372036854775808, "b": false}]"""\nsort a\n', [(-9223372036854775808, 0), (9223372036854775807, 1)]),
+    ('from_text format:json """[{"a": 1.5, "b": "x\'y"}, {"a": null, "b": "\u00e9t\u00e9"}]"""\nsort b\n', [(1.5, "x'y"), (None, "\u00e9t\u00e9")]),
+    ('from_text format:json """{"columns": ["a"], "data": [[9223372036854775808], [2]]}"""\nsort a\n', [(2,), (9.223372036854775808e18,)]),
+]
+
+
+def _try(src, exp):
+    import replaylib
+    ok, sql = replaylib.compile_prql(src, "sql.sqlite")
+    if not ok:
+        return {"input": src, "expected": [list(r) for r in exp], "observed": sql[:300], "failing": True, "replay_kind": "rows"}
+    ok2, rows = replaylib.sqlite_rows("", sql)
+    rows = [tuple(r) for r in rows] if ok2 else rows
+    return {"input": src, "expected": [list(r) for r in exp], "observed": [list(r) for r in rows] if ok2 else "sqlite error: %s" % rows, "failing": (not ok2) or rows != exp, "replay_kind": "rows", "sql": sql}
+
+
+def replay(failure):
+    for src, exp in CASES:
+        r = _try(src, exp)
+        if r["failing"]:
+            return r
+    return {"failing": False}
+
+
+def rerun(doc):
+    return _try(doc["input"], [tuple(r) for r in doc["expected"]])
+
+
+SWEEP_DOC = "from_text format:json with integers at and beyond the i64 limits, floats, null, strings with quotes: compiled for SQLite by the real prqlc and executed"
+
+
+def sweep():
+    out = []
+    for src, exp in CASES:
+        r = _try(src, exp)
+        r["obligation"] = "json_lits.JL5" if "18446744073709551615" in src or "9223372036854775808]" in src else "json_lits.JL3"
+        out.append(r)
+    return out
